@@ -50,8 +50,9 @@ func vfWithTimeout(parent context.Context, d time.Duration) (context.Context, co
 type vfSrv struct {
 	path   string
 	opts   api.Options
-	users  int
-	closes int
+	users   int
+	closing int
+	closes  int
 }
 
 var (
@@ -62,11 +63,17 @@ var (
 	vfServers    []*vfSrv
 	vfMaxRunners int
 	vfReplies    []int
+	vfGot        []*vfSrv // the runner each request was handed
+	vfGotBig     []bool
+	vfGotKA      []int
+	vfPingFailed bool
+	vfNumGPU     = 1
 	vfCancelled  []bool
 )
 
 func (v *vfSrv) Ping(ctx context.Context) error {
 	if verifChoice(2) == 1 {
+		vfPingFailed = true
 		return errors.New("ping failed")
 	}
 	return nil
@@ -83,7 +90,9 @@ func (v *vfSrv) WaitUntilRunning(ctx context.Context) error {
 func (v *vfSrv) Close() error {
 	verifNote("Close " + v.path)
 	verifAssert(v.users == 0, "runner-closed-while-a-request-uses-it")
-	verifAssert(v.closes == 0, "runner-closed-twice")
+	verifAssert(v.closing == 0, "runner-closed-twice")
+	v.closing++
+	verifYield() // stopping the runner process takes time: it stays alive (and counts as live) meanwhile
 	v.closes++
 	return nil
 }
@@ -117,6 +126,12 @@ func vfNewServer(gpus discover.GpuInfoList, modelPath string, f *ggml.GGML, adap
 		}
 	}
 	verifNote("NewServer " + modelPath)
+	// C11: the context a runner is started with is the requested context times its parallelism (the relation
+	// needsReload relies on when it judges compatibility)
+	verifAssert(numParallel >= 1, "runner-started-with-parallelism-below-one")
+	if numParallel >= 1 {
+		verifAssert(opts.NumCtx == vfBaseCtx*numParallel || opts.NumCtx == 8192*numParallel, "runner-context-is-requested-context-times-parallel")
+	}
 	srv := &vfSrv{path: modelPath, opts: opts}
 	vfServers = append(vfServers, srv)
 	return srv, nil
@@ -125,6 +140,14 @@ func vfNewServer(gpus discover.GpuInfoList, modelPath string, f *ggml.GGML, adap
 // replacement for llm.PredictServerFit: arbitrary answer
 func vfPredictServerFit(allGpus discover.GpuInfoList, f *ggml.GGML, adapters, projectors []string, opts api.Options, numParallel int) (bool, uint64) {
 	return verifChoice(2) == 1, 10
+}
+
+// replacement for (*runnerRef).waitForVRAMRecovery in the multi-GPU jobs (its polling branch queries the real
+// GPUs through cgo): recovery is reported at once
+func vfWaitVRAM(runner *runnerRef) chan any {
+	finished := make(chan any, 1)
+	finished <- struct{}{}
+	return finished
 }
 
 // replacements
@@ -138,6 +161,8 @@ func vfEstimate(gpus []discover.GpuInfo, f *ggml.GGML, projectors []string, opts
 	}
 	return llm.MemoryEstimate{TotalSize: 1}
 }
+
+var vfBaseCtx = api.DefaultOptions().NumCtx
 
 var vfModels = []*Model{{ModelPath: "/m/a", ShortName: "a"}, {ModelPath: "/m/b", ShortName: "b"}, {ModelPath: "/m/c", ShortName: "c"}}
 
@@ -180,7 +205,9 @@ func vfClient(s *Scheduler, i int, nModels int, done chan int) {
 		reqOpts["big"] = true
 	}
 	var ka *api.Duration
-	switch verifChoice(3) {
+	kaChoice := verifChoice(3)
+	vfGotBig[i], vfGotKA[i] = bigCtx, kaChoice
+	switch kaChoice {
 	case 1:
 		ka = &api.Duration{Duration: 0} // unload when done
 	case 2:
@@ -222,6 +249,7 @@ func vfClient(s *Scheduler, i int, nModels int, done chan int) {
 			}
 			fake.users++
 			using = fake
+			vfGot[i] = fake
 			verifYield() // the request is in progress
 			if using != nil {
 				using.users--
@@ -252,14 +280,21 @@ func vfGinJSON(c *gin.Context, code int, obj any) {
 
 // VerifSched: nModels models, nReq concurrent requests, loaded-runner limit, queue length.
 func VerifSched(nModels int, nReq int, maxRunners int, queue int, flags int) {
+	VerifSchedCfg(nModels, nReq, maxRunners, queue, flags, 1, 1)
+}
+
+// VerifSchedCfg: as VerifSched, with the GPU inventory size and the OLLAMA_NUM_PARALLEL setting (0 = automatic).
+func VerifSchedCfg(nModels int, nReq int, maxRunners int, queue int, flags int, nGPU int, numParallel int) {
+	vfNumGPU = nGPU
 	vfServers, vfMaxRunners = nil, maxRunners
 	vfUnloadClients, vfEarlyCancel, vfUseGPU = flags&1 != 0, flags&2 != 0, flags&4 != 0
 	vfDrain = make(chan struct{})
 	vfReplies = make([]int, nReq)
+	vfGot, vfGotBig, vfGotKA, vfPingFailed = make([]*vfSrv, nReq), make([]bool, nReq), make([]int, nReq), false
 	vfCancelled = make([]bool, nReq)
 	envconfig.MaxRunners = func() uint { return uint(maxRunners) }
 	envconfig.MaxQueue = func() uint { return uint(queue) }
-	envconfig.NumParallel = func() uint { return 1 }
+	envconfig.NumParallel = func() uint { return uint(numParallel) }
 	envconfig.SchedSpread = func() bool { return false }
 
 	ctx := newVfCtx()
@@ -271,9 +306,11 @@ func VerifSched(nModels int, nReq int, maxRunners int, queue int, flags int) {
 		return l
 	}
 	s.getGpuFn = func() discover.GpuInfoList {
-		// one GPU of a library that needs no VRAM-recovery polling
-		l := discover.GpuInfoList{{Library: "metal", ID: "0"}}
-		l[0].FreeMemory, l[0].TotalMemory = 1<<30, 1<<30
+		// GPUs of a library that needs no VRAM-recovery polling
+		l := discover.GpuInfoList{{Library: "metal", ID: "0"}, {Library: "metal", ID: "1"}}[:vfNumGPU]
+		for i := range l {
+			l[i].FreeMemory, l[i].TotalMemory = 1<<30, 1<<30
+		}
 		return l
 	}
 	s.reschedDelay = 0
@@ -302,6 +339,16 @@ func VerifSched(nModels int, nReq int, maxRunners int, queue int, flags int) {
 		}
 	}
 	verifReach("all-requests-answered")
+	if flags&32 != 0 {
+		// C11 reuse (sequential history, no delays: keep-alive timers have not fired yet): a request for
+		// a model that an earlier request left loaded, with the same options, is served by that runner
+		for i := 1; i < nReq; i++ {
+			a, b := vfGot[i-1], vfGot[i]
+			if a != nil && b != nil && a.path == b.path && vfGotBig[i-1] == vfGotBig[i] && vfGotKA[i-1] != 1 && !vfPingFailed {
+				verifAssert(a == b, "compatible-request-served-by-the-loaded-runner")
+			}
+		}
+	}
 	// all requests have finished: let keep-alive periods elapse and the loops drain
 	verifQuiesce()
 	close(vfDrain)
